@@ -121,7 +121,7 @@ pub fn panic_text(p: &(dyn std::any::Any + Send)) -> String {
 }
 
 pub fn silence_panics() {
-    std::panic::set_hook(Box::new(|_| {}));
+    vcore::quiet_panics();
 }
 
 /// Lock-order monitor (C04, "no interleaving can deadlock the workers"): reads the (held class -> requested class)
